@@ -117,6 +117,44 @@ let dumb_line l =
       | _ -> failwith "bad dumb op") (String.split_on_char ';' rest) in
     show_outcome (fun (segs, _) -> hex_of_bytes (printed segs)) (d_run0 v ops)
 
+(* <argv0-hex> [arg-hex ...].  The file system `-C` sees is the harness's scratch tree: d1, d1/d2, "with space"
+   (this emulation is part of the correspondence machinery, not of the model) *)
+let cli_dirs = [ []; ["d1"]; ["d1"; "d2"]; ["with space"] ]
+let cli_walk (cur : string list option) (path : string) : string list option =
+  if path = "" then None else
+  let comps = String.split_on_char '/' path in
+  let start = if String.length path > 0 && path.[0] = '/' then None else cur in   (* absolute paths leave the tree *)
+  List.fold_left (fun acc c ->
+    match acc with
+    | None -> None
+    | Some cur ->
+      if c = "" || c = "." then Some cur
+      else if c = ".." then (match List.rev cur with [] -> None | _ :: r -> Some (List.rev r))
+      else let next = cur @ [c] in if List.mem next cli_dirs then Some next else None) start comps
+let cli_dir_ok (hist : n list list) (d : n list) : bool =
+  let cur = List.fold_left (fun acc h -> cli_walk acc (string_of_bytes h)) (Some []) hist in
+  cli_walk cur (string_of_bytes d) <> None
+let dec_n x = string_of_bytes (dec_of_N x)
+let cli_line l =
+  match words l with
+  | [] -> "bad"
+  | a0 :: args ->
+    let b x = if x then 1 else 0 in
+    (match parse_args cli_dir_ok (bytes_of_hex a0) (List.map bytes_of_hex args) with
+     | PExit c -> Printf.sprintf "exit %d" (int_of_n c)
+     | PErr -> "err"
+     | PPanic s -> Printf.sprintf "panic %d" (int_of_n s)
+     | PFuel -> "fuel"
+     | PArgs a ->
+       Printf.sprintf "args compat=%d adopt=%d explain=%d file=%s targets=%s j=%s k=%s v=%d chdirs=%s trace=%d"
+         (b a.ba_compat) (b a.ba_adopt) (b a.ba_explain)
+         (match a.ba_file with None -> "~" | Some f -> hex_of_bytes f)
+         (String.concat "," (List.map hex_of_bytes a.ba_targets))
+         (dec_n a.ba_par)
+         (match a.ba_keep with None -> "~" | Some k -> dec_n k)
+         (b a.ba_verbose)
+         (String.concat "," (List.map hex_of_bytes a.ba_chdirs)) (b a.ba_trace))
+
 let lossy_line l = "ok " ^ hex_of_bytes (lossy (bytes_of_hex l))
 
 let status_line l = "ok " ^ string_of_int (int_of_n (decode_status (n_of_int (int_of_string (String.trim l)))))
@@ -459,7 +497,7 @@ let suites : (string * (string -> string)) list =
     ("showincludes", showinc_line true); ("showincludes_pinned", showinc_line false);
     ("lastline", lastline_line); ("depfiledeps", depfiledeps_line);
     ("taskmsg", taskmsg_line true); ("taskmsg_pinned", taskmsg_line false);
-    ("truncate", truncate_line); ("bar", bar_line); ("fancy", fancy_line); ("lossy", lossy_line); ("task", task_line); ("dumb", dumb_line); ("status", status_line);
+    ("truncate", truncate_line); ("bar", bar_line); ("fancy", fancy_line); ("lossy", lossy_line); ("task", task_line); ("dumb", dumb_line); ("cli", cli_line); ("status", status_line);
     ("inv", inv_line); ("select", select_line); ("build", build_line);
     ("dbopen", dbopen_line); ("dbwrite", dbwrite_line);
     ("load", load_line); ("world", world_line); ("siphash", hash_line); ("dedup", dedup_line true); ("dedup_pinned", dedup_line false) ]
